@@ -1003,3 +1003,64 @@ def _ancestors(parents: Dict[int, ast.AST], node: ast.AST) -> List[ast.AST]:
         out.append(cur)
         cur = parents.get(id(cur))
     return out
+
+
+# ------------------------------------------------------------------------------------------ R-STATUS-EXHAUSTIVE
+def rule_status_exhaustive(ctx: Ctx, prog: Program) -> None:
+    """solve_one dispatches on the verdict of the consistency algorithm with a chain `== PROBLEM_BOUND / == PROBLEM_UNBOUND / else`; the else
+    side is 'inconsistent: backtrack'.  Every constant a registered consistency algorithm can return must therefore be one the chain names, or
+    PROBLEM_INCONSISTENT itself: a further status (e.g. 'no free level for a probe') falls into the else side, the node is abandoned as a
+    failure and the refusal is reported nowhere -- solutions are lost silently.  Exhaustiveness of a dispatch over a status vocabulary."""
+    ctx.rule("R-STATUS-EXHAUSTIVE")
+    so = prog.func(f"{prog.package}.solvers.backtrack_solver", "solve_one")
+    handled: Set[int] = set()
+    for n in ast.walk(so.node):
+        if isinstance(n, ast.Compare) and len(n.ops) == 1 and isinstance(n.ops[0], (ast.Eq, ast.NotEq)):
+            for side in (n.left, n.comparators[0]):
+                if isinstance(side, ast.Name) and side.id.startswith("PROBLEM_"):
+                    v = prog.fold(so.module, side)
+                    if isinstance(v, int) and not isinstance(v, bool):
+                        handled.add(v)
+    inc = prog.C("PROBLEM_INCONSISTENT")
+    if len(handled) < 2:
+        raise AnalysisError("R-STATUS-EXHAUSTIVE: the status chain of solve_one is not read")
+    accepted = handled | {inc}
+    n_ret = 0
+    seen: Set[str] = set()
+    work: List[FuncInfo] = [e for e in prog.registry("CONSISTENCY_ALG_FCTS").entries if isinstance(e, FuncInfo)]
+    for e in prog.runtime_registrations("CONSISTENCY_ALG_FCTS") if hasattr(prog, "runtime_registrations") else []:
+        if isinstance(e, FuncInfo):
+            work.append(e)
+    while work:
+        f = work.pop()
+        if f.fq in seen:
+            continue
+        seen.add(f.fq)
+        ctx.fn(f.fq)
+        for n in ast.walk(f.node):
+            if not isinstance(n, ast.Return) or n.value is None:
+                continue
+            vals = [n.value.body, n.value.orelse] if isinstance(n.value, ast.IfExp) else [n.value]
+            for v_ in vals:
+                if isinstance(v_, (ast.Name, ast.Constant)):
+                    c = prog.fold(f.module, v_)
+                    if isinstance(c, int) and not isinstance(c, bool) and c is not NO:
+                        n_ret += 1
+                        if c in accepted:
+                            ctx.ok("R-STATUS-EXHAUSTIVE", f"{f.name}: returns a status the search loop names", nontrivial=False)
+                        else:
+                            ctx.violation("R-STATUS-EXHAUSTIVE", f.path, f.name, f"unhandled-status:{ast.unparse(v_)}", f"{f.path}:{n.lineno}",
+                                          f"{f.name} can answer `{ast.unparse(v_)}` (= {c}); solve_one's dispatch on the verdict names only "
+                                          f"{sorted(handled)} and treats anything else as an inconsistency: the node is abandoned as a failure, nothing is "
+                                          "reported, and the solutions below it are lost")
+                if isinstance(v_, ast.Call) and isinstance(v_.func, ast.Name):
+                    r = prog.resolve(f.module, v_.func.id)
+                    if r and r[0] == "func":
+                        work.append(r[1])
+        # a status held in a local that comes from a callee: follow the callee
+        for n in ast.walk(f.node):
+            if isinstance(n, ast.Assign) and isinstance(n.value, ast.Call) and isinstance(n.value.func, ast.Name):
+                r = prog.resolve(f.module, n.value.func.id)
+                if r and r[0] == "func" and r[1].name.endswith("consistency_algorithm"):
+                    work.append(r[1])
+    ctx.floor("R-STATUS-EXHAUSTIVE:constant returns of consistency algorithms", n_ret, 4)
